@@ -165,10 +165,20 @@ class Walker(object):
         if X == 33 and marker is None:
             if self.qa == 1:
                 self.qa = 2
+            if self.qa == 2 and self.assoc:
+                # grey (DESIGN 2.3): like marker operators under 204 - the flat link exists but the
+                # hierarchical placement of a quality value that carries an associated field is
+                # not defined (its 031021 meaning may be the very element it qualifies)
+                raise Unsupported('quality information while 204 in force')
             if self.qa == 2:
                 self.links[len(self.labels)] = self.next_bitmapped()
+            elif self.qa == 3:
+                # FM-94 gives no meaning to a class 33 value that follows a completed run of
+                # quality information without a new operator (library: coder does not link it,
+                # the wiring step expects a link)
+                raise Unsupported('class 33 element after a completed quality information run')
         elif self.qa == 2:
-            self.qa = 0
+            self.qa = 3
         ekind = 'elem' if marker is None else 'other'
         self._ctx = ('elem' if marker is None else 'marker', eid)
         if marker == 225255 and k != 'n':
@@ -472,8 +482,7 @@ class Walker(object):
                 self.bm_state = 'expect'
                 self.bm_idx = []
                 self.bm_reuse = False
-                if op == 222:
-                    self.qa = 1
+                self.qa = 1 if op == 222 else 0
             elif y == 255 and op != 222:
                 owner = self.next_bitmapped()
                 if self.elem_id[owner] is None:
@@ -491,6 +500,7 @@ class Walker(object):
             self.cur = None
             self.reuse_bitmap = None
             self.boundary = None
+            self.qa = 0
         elif op == 236:
             if y != 0:
                 raise Unsupported('operator %06d' % d)
